@@ -8,9 +8,37 @@
 use std::fs;
 use std::path::Path;
 
+/// the Windows trampoline allocator (`allocate_jit_memory_windows` in common.rs), text of the function only, once per
+/// architecture branch: `target_arch = "aarch64"` / `"x86_64"` become `all()` / `any()` (or the reverse).  It compiles
+/// against a shim of the four Win32 items it uses (src/winsim.rs).
+fn windows_allocator(repo: &str, out: &str) {
+    println!("cargo:rerun-if-changed={repo}/common.rs");
+    let src = fs::read_to_string(format!("{repo}/common.rs")).unwrap_or_default();
+    let lines: Vec<&str> = src.lines().collect();
+    let mut body = String::new();
+    if let Some(start) = lines.iter().position(|l| l.starts_with("fn allocate_jit_memory_windows")) {
+        for l in &lines[start..] {
+            body.push_str(l);
+            body.push('\n');
+            if *l == "}" {
+                break;
+            }
+        }
+    } else {
+        body.push_str("fn allocate_jit_memory_windows(_src: &FuncPtrInternal, _code_size: usize) -> *mut u8 { panic!(\"harness: allocate_jit_memory_windows not found in common.rs\") }\n");
+    }
+    let dir = Path::new(out).join("winalloc");
+    fs::create_dir_all(&dir).unwrap();
+    let a64 = body.replace("target_arch = \"aarch64\"", "all()").replace("target_arch = \"x86_64\"", "any()");
+    let x64 = body.replace("target_arch = \"aarch64\"", "any()").replace("target_arch = \"x86_64\"", "all()");
+    fs::write(dir.join("a64.rs"), a64).unwrap();
+    fs::write(dir.join("x64.rs"), x64).unwrap();
+}
+
 fn main() {
     let repo = "/repo/src/injector_core";
     let out = std::env::var("OUT_DIR").unwrap();
+    windows_allocator(repo, &out);
     let files = ["patch_arm64.rs", "arm64_codegenerator.rs", "utils.rs", "patch_arm.rs", "patch_amd64.rs", "patch_trait.rs"];
     for f in files {
         println!("cargo:rerun-if-changed={repo}/{f}");
